@@ -108,8 +108,10 @@ type c15nKernel struct {
 	recreates         int // committed transactions of Felix that deleted and rebuilt the table
 	freshListAllFails int
 	lastReadAt   time.Time
-	// A listing of map elements failed during Felix's last complete read: its view of the
-	// verdict maps is incomplete although its view of the chains is not.
+	// mapViewStale: the current Table cannot know what the verdict maps hold: it has not listed
+	// their elements successfully since it was created / since another program last edited the
+	// table.  (A failed element listing by a Table that already knew the contents does not make
+	// its knowledge wrong: its own writes keep it current.)
 	elemFailedThisRead, mapViewStale bool
 
 	// Counters for the Apply in progress.
@@ -136,6 +138,7 @@ func (k *c15nKernel) Sleep(d time.Duration) { k.now = k.now.Add(d) }
 func (k *c15nKernel) newDataplane(fam knftables.Family, name string, _ ...knftables.Option) (knftables.Interface, error) {
 	k.dpCalls = append(k.dpCalls, string(fam)+"/"+name)
 	k.instanceReads = 0
+	k.mapViewStale = true
 	return k, nil
 }
 
@@ -190,6 +193,9 @@ func c15nDangling(t *knftables.FakeTable) string {
 		}
 	}
 	for _, mn := range c15nSortedKeys(t.Maps) {
+		if os.Getenv("C15N_DEBUG_NO_ELEM_INUSE") != "" { // development aid: knftables.Fake semantics
+			break
+		}
 		for _, e := range t.Maps[mn].Elements {
 			if len(e.Value) == 1 {
 				w := strings.Fields(e.Value[0])
@@ -302,7 +308,9 @@ func (k *c15nKernel) readComplete() {
 	k.reads++
 	k.instanceReads++
 	k.lastReadAt = k.now
-	k.mapViewStale = k.elemFailedThisRead
+	if k.listAllEpoch == k.editEpoch && !k.elemFailedThisRead {
+		k.mapViewStale = false
+	}
 	if k.listAllEpoch == k.editEpoch {
 		k.extDirty = false
 	}
@@ -404,6 +412,7 @@ func (k *c15nKernel) external(build func(tx *knftables.Transaction)) bool {
 	k.record(evs, true, "", nil)
 	k.editEpoch++
 	k.extDirty = true
+	k.mapViewStale = true
 	return true
 }
 
@@ -1092,7 +1101,7 @@ func (h *c15nH) apply(label string) bool {
 			}
 		}
 	}
-	extDirtyAtStart := k.extDirty || k.mapViewStale
+	extDirtyAtStart := k.extDirty || (k.mapViewStale && k.instanceReads > 0)
 	freshAtStart := h.freshTable
 	readsAtStart := k.reads
 	refreshDue := h.refresh > 0 && k.now.Sub(k.lastReadAt) > h.refresh
